@@ -234,7 +234,7 @@ class PermutationTestDistanceBased(BaseCallbackBatch):
             method = "approximate" if num_permutations > MAX_NUM_PERM else "exact"
         if method == "conservative":
             p_value = PermutationTestDistanceBased._compute_conservative(
-                num_permutations=num_permutations,
+                num_permutations=len(permuted_statistic),
                 observed_statistic=observed_statistic,
                 permuted_statistic=permuted_statistic,
             )
